@@ -115,9 +115,25 @@ func pkColumns(schema *sdb.Schema, ind *sdb.SchemaIndex) []int {
 		panic("can't call pkColumns on a rowid table")
 	}
 
+	// SQLite adds every primary key column to the index, unless the index
+	// definition already has that column with the same collating function.
+	collate := func(c string) string {
+		if c == "" {
+			return sdb.DefaultCollate
+		}
+		return strings.ToLower(c)
+	}
 	var res []int
+	declared := ind.Columns
 	for _, c := range schema.PK {
-		if in := ind.Column(c.Column); in < 0 {
+		in := -1
+		for i, ic := range declared {
+			if strings.EqualFold(ic.Column, c.Column) && collate(ic.Collate) == collate(c.Collate) {
+				in = i
+				break
+			}
+		}
+		if in < 0 {
 			ind.Columns = append(ind.Columns, c)
 			res = append(res, len(ind.Columns)-1)
 		} else {
